@@ -26,6 +26,8 @@ def decode_instruction(instr):
     op1 = substring(instr, 23, 20)
     rn = substring(instr, 19, 16)
     instr_7 = bit_at(instr, 7)
+    if substring(instr, 15, 12) != 0b1111:
+        return None
     if instr_23_21 == 0b000 and op2 == 0b0000:
         # Logical Shift Left
         return LslRegisterT2
